@@ -3,7 +3,8 @@ only the named rule ids reach the including property's report (its explanation /
 
 
 class _Filter:
-    def __init__(self, rep, rules, floors):
+    def __init__(self, rep, rules, floors, keys=None):
+        object.__setattr__(self, '_keys', keys)
         object.__setattr__(self, '_rep', rep)
         object.__setattr__(self, '_rules', set(rules))
         object.__setattr__(self, '_floors', floors)
@@ -19,6 +20,8 @@ class _Filter:
         return getattr(self._rep, k)
 
     def ob(self, rule, key, status, detail='', where=None, **payload):
+        if rule in self._rules and self._keys is not None and not self._keys(key):
+            return
         if rule in self._rules:
             self._n[0] += 1
         if rule in self._rules or rule in ('engine', 'anchor'):
@@ -35,8 +38,8 @@ class _Filter:
         pass
 
 
-def include(ctx, rep, run, rules, floors=False, why=''):
-    f = _Filter(rep, rules, floors)
+def include(ctx, rep, run, rules, floors=False, why='', keys=None):
+    f = _Filter(rep, rules, floors, keys)
     run(ctx, f)
     # fail closed: an included rule set that produced nothing decides nothing
     rep.floor(f'obligations of the included rules {sorted(rules)}', f._n[0], 1)
